@@ -556,11 +556,20 @@ class SrcHarness:
         prefix = [("on_next", pending)] if emitted_pending else []
         # the loop step: s' = state if first else iterate(state)
         want_calls = ([] if first else ["iterate"]) + ["condition"]
+        new_state = state if first else ValSV(z3.Function("iterate/1", smt.Val, smt.Val)(state.t))
+        # every user function is called when the loop `s = init; while cond(s): yield s; s = iterate(s)` calls it and at no other time: a delay is
+        # asked for only for a state that is going to be emitted (a delay function need not be defined on the state that ends the loop)
+        full = want_calls + (["time_mapper"] if timed else [])
+        self.rec(ctx, uid + "/tick/calls-the-user-functions-of-one-loop-step-in-order-and-no-others", names == full[:len(names)],
+                 detail=f"user functions called: {names}; one step of the loop calls {full}")
+        if "time_mapper" in names and names == full[:len(names)]:
+            self.rec(ctx, uid + "/tick/asks-for-a-delay-only-for-a-state-the-condition-accepted",
+                     smt.truthy(z3.Function("condition/1", smt.Val, smt.Val)(new_state.t)),
+                     detail="time_mapper was called although the condition may have rejected the state (the loop ends there)")
         if raised:
             self.rec(ctx, uid + "/tick/a-raising-user-function-ends-in-on_error-and-nothing-more",
                      len(ds) == len(prefix) + 1 and ds[-1][1] == "on_error" and not sc)
             return
-        new_state = state if first else ValSV(z3.Function("iterate/1", smt.Val, smt.Val)(state.t))
         self.rec(ctx, uid + "/tick/steps-the-loop-exactly-once", names[:len(want_calls)] == want_calls and same(cells["state"].vars["state"], new_state),
                  detail=f"user functions called: {names}")
         cond_val = smt.truthy(z3.Function("condition/1", smt.Val, smt.Val)(new_state.t))
